@@ -12,6 +12,13 @@ E1 (misplaced keywords).  Explicit-state search over flat line sequences from
     classifies each sequence as well-formed (the set of node lines in effect is compared), must-raise (misplaced
     @else/@end at a position that is itself in effect) or undefined (executed, not compared).  `states` counts the
     distinct (implementation state, reference state) pairs reached; it is reported, not used for pruning.
+E3 (non-initial counter states).  Every full-alphabet program with a block and <= 4 lines (thorough <= 5) is run
+    again behind each of 13 prefixes of closed blocks (nested, multi-clause, closed by @end and by indentation;
+    `G.counter_prefix`) that consume k = 1..13 clause-keyword ids, so the program's first keyword gets every id
+    2..14 and the library's document-wide counters (num_cases incl. @else/@end, num_branches) start from non-initial
+    values and cross the 9/10 boundary inside the program's blocks; thorough adds k = 96..102 (ids 97..103, the
+    99/100 boundary) for programs of <= 4 lines.  Expected result = the prefix's own nodes + the program's
+    reference result.
 The two references are written independently (AST interpreter / indentation automaton); every E2 program is also
 read by the automaton and a disagreement between the two is a harness error.
 
@@ -38,7 +45,7 @@ LEVEL = "model_checking"
 RULE = ("E2: one case = one distinct AST (distinct ASTs render to distinct texts; blocks directly followed by a "
         "block always carry @end so no text has two readings) x group-name order (only when >= 2 groups); "
         "non-trivial = the program has a block and at least one definition/modification/property inside or after "
-        "it. E1: one case = one flat line sequence; executed iff every proper prefix was accepted by library and "
+        "it. E3: one case = (AST with a block, prefix offset k); same non-triviality rule. E1: one case = one flat line sequence; executed iff every proper prefix was accepted by library and "
         "reference; non-trivial = contains a clause keyword and at least two lines")
 ASSUMPTIONS = [
     "the reference interprets the generator's AST by the statement (first true @case, else @else; effect iff all "
@@ -55,8 +62,13 @@ ASSUMPTIONS = [
 BD = 3                                      # block nesting
 # E2 bounds: full alphabet (mods, properties, expression conditions) up to FULL_N lines, static alphabet
 # (definitions, groups, literal conditions) for FULL_N < n <= STATIC_N lines
-BOUNDS = dict(quick=dict(full=5, static=6, d=5),
-              thorough=dict(full=6, static=7, d=6))
+BOUNDS = dict(quick=dict(full=5, static=6, d=5, off=((4, tuple(range(1, 14))),)),
+              thorough=dict(full=6, static=7, d=6, off=((5, tuple(range(1, 14))), (4, tuple(range(96, 103))))))
+# off = ((max lines, offsets k), ...): every full-alphabet program with a block and <= max lines is also run behind
+# a prefix of closed blocks that consumes k clause-keyword ids (G.counter_prefix), so that its first clause keyword
+# gets every id 2..14 (thorough also 97..103; id 1 is the plain E2 run) - the library's document-wide counters
+# (num_cases, num_branches) then start from non-initial values and cross the 9/10 and 99/100 digit boundaries
+# inside the program's blocks
 TARGET = dict(quick=3000, thorough=12000)   # programs per E2 shard (approximate)
 
 
@@ -196,6 +208,66 @@ def _check_tree(prog, gorder, sh=None):
     return w, rec
 
 
+def _check_offset(prog, k, sh=None):
+    """the program behind counter_prefix(k); expected = the prefix's own nodes + the program's reference result"""
+    w = G.Walk(prog, "asc")
+    if not G.prefix_cross_check(k, w):
+        raise HarnessError("indentation automaton disagrees on prefix %d + %r" % (k, prog))
+    plines, _, pdata, _ = G.counter_prefix(k)
+    text = G.text_of(plines + tuple(w.lines))
+    got = _run_tree(text)
+    exp = (dict(pdata, **w.data), sorted(w.tagged))
+    if sh is not None:
+        sh.count("offset:" + ("ok" if got[0] == "ok" else "err:" + got[1]))
+    if got[0] == "ok" and (got[1][0], got[1][1]) == exp:
+        return w, None
+    tags = sorted(G.shape_features(prog) | w.feat | {"counter-offset", "first-clause-id=%d" % (k + 1)})
+    rec = failure("tree-offset", dict(kind="offset", prog=prog, k=k, text=text),
+                  dict(data=exp[0], tagged=exp[1]),
+                  dict(data=got[1][0], tagged=got[1][1]) if got[0] == "ok" else list(got),
+                  tags=tags, behaviour=_behaviour_tree(exp, got, w.effective_values | set(pdata.values())))
+    return w, rec
+
+
+def _e3_shards(tier):
+    shards = []
+    for fam, (nmax, ks) in enumerate(BOUNDS[tier]["off"]):
+        cost = 1 + max(ks) // 8                  # longer prefixes parse slower
+        for n in range(1, nmax + 1):
+            for header, size in G.headers(n, BD, G.FULL):
+                if header[1] == "d" and n == 1:
+                    continue                      # a single definition has no block
+                J = max(1, -(-(size * len(ks) * cost) // (4 * TARGET[tier])))
+                for j in range(J):
+                    shards.append((size * len(ks) * cost // J, ("e3", n, fam, header, j, J)))
+    shards.sort(key=lambda t: -t[0])
+    return [d for _, d in shards]
+
+
+def _run_e3(desc, sh, tier_off):
+    _, n, fam, header, j, J = desc
+    ks = tier_off[fam][1]
+    for prog in itertools.islice(G.programs_under(n, BD, G.FULL, header), j, None, J):
+        try:
+            w = G.Walk(prog)
+        except G.Invalid:
+            continue
+        if not w.nblocks:
+            continue                              # without a clause keyword the counters are never read
+        for k in ks:
+            w, rec = _check_offset(prog, k, sh)
+            _cheap_isolation()
+            sh.evaluations += 1
+            if w.probe_in_or_after_block:
+                sh.nontrivial += 1
+            if rec:
+                sh.fail(rec)
+            sh.add_to_set("first_clause_ids", k + 1)
+            sh.add_extra("e3_offset_runs", 1)
+        if n == 4 and w.nblocks >= 2 and len(sh.samples) < 1:
+            sh.sample(dict(text=G.text_of(G.counter_prefix(ks[-1])[0] + tuple(w.lines)), offset=ks[-1]))
+
+
 def _e2_shards(tier):
     b = BOUNDS[tier]
     shards = []
@@ -317,6 +389,10 @@ def _run_e1_unpruned(desc, sh):
 def plan(tier, seed):
     b = BOUNDS[tier]
     shards = _e2_shards(tier)
+    e3 = [d + (tier,) for d in _e3_shards(tier)]
+    # keep the small E2 programs first (minimal counterexamples), then interleave by cost
+    small = [d for d in shards if d[1] <= 4]
+    shards = small + e3 + [d for d in shards if d[1] > 4]
     shards.append(("e1u", None, None, b["d"]))
     for a in G.FLAT_ALPHABET:
         for c in G.FLAT_ALPHABET:
@@ -328,6 +404,8 @@ def run_shard(desc):
     sh = Shard(PROPERTY)
     if desc[0] == "e2":
         _run_e2(desc, sh)
+    elif desc[0] == "e3":
+        _run_e3(desc[:-1], sh, BOUNDS[desc[-1]]["off"])
     else:
         _run_e1_unpruned(desc, sh)
     from .. import isolation
@@ -341,6 +419,8 @@ def replay(rec):
     c = rec["case"]
     if c["kind"] == "tree":
         _, bad = _check_tree(_tup(c["prog"]), c["gorder"])
+    elif c["kind"] == "offset":
+        _, bad = _check_offset(_tup(c["prog"]), c["k"])
     else:
         _, _, bad = _check_flat(tuple((k, i) for k, i in c["seq"]))
     _cheap_isolation()
@@ -357,7 +437,12 @@ def finish(total, tier, seed):
         raise HarnessError("vacuous run, outcome classes never seen: %s" % missing)
     if not total.extra.get("e2_lines_skipped_by_reference") or not total.extra.get("e2_lines_effective_by_reference"):
         raise HarnessError("vacuous run: the reference never skipped / never accepted a line")
-    return dict(states=total.states,
+    want = {k + 1 for _, ks in b["off"] for k in ks}
+    seen_ids = set(total.sets.get("first_clause_ids", ()))
+    if seen_ids != want or not h.get("offset:ok"):
+        raise HarnessError("counter-offset family incomplete: first clause ids %s missing" % sorted(want - seen_ids))
+    return dict(states=total.states, first_clause_ids_covered=sorted({1} | seen_ids),
+                offset_family=[dict(max_lines=n, offsets=list(ks)) for n, ks in b["off"]],
                 bounds=dict(e2_full_alphabet_max_lines=b["full"], e2_static_alphabet_max_lines=b["static"],
                             block_nesting=BD, clauses_per_block=G.MAXCL, conditions_full=list(G.FULL[0]),
                             e1_alphabet=len(G.FLAT_ALPHABET), e1_depth=b["d"]),
@@ -371,7 +456,10 @@ MANIFEST = dict(
          "orders, @case/@else/@end blocks nested up to 3 deep with up to 3 clauses, closed by @end or by indentation "
          "incl. several levels at once, empty clauses, every truth assignment incl. conditions that depend on earlier "
          "clauses) with <= 5 lines in the full alphabet and 6 lines in the static alphabet (thorough: 6 and 7) is "
-         "compared (exact env.data() and tag query) with a reference interpreting the generator's AST. E1: every flat "
+         "compared (exact env.data() and tag query) with a reference interpreting the generator's AST. E3: every such "
+         "program with a block and <= 4 lines (thorough 5) is re-run behind 13 prefixes of closed blocks that advance "
+         "the parser's document-wide clause/block counters, so its first clause keyword gets every id 1..14 (thorough "
+         "also 97..103 for <= 4 lines). E1: every flat "
          "sequence over {node,@case true,@case false,@else,@end} x indent {0,1,2} up to depth 5 (thorough 6), unpruned, "
          "is executed and compared with a reference automaton: well-formed -> same lines in effect, misplaced "
          "@else/@end (no open block at that indentation, second @else, after @end) -> parse() must raise.",
